@@ -385,3 +385,29 @@ struct LabelReferences {
     declaration: Option<TextRange>,
     references: Vec<TextRange>,
 }
+
+/// Entry counts of every map of this index (verification hook, add-only, off by default).
+#[cfg(feature = "verif")]
+impl LuaReferenceIndex {
+    pub fn verif_sizes(&self) -> Vec<(String, usize)> {
+        let p = "reference";
+        let mut v: Vec<(String, usize)> = Vec::new();
+        let mut put = |name: &str, n: usize| v.push((format!("{p}.{name}"), n));
+        put("file_references", self.file_references.len());
+        put("file_references.decls", self.file_references.values().map(|r| r.get_decl_references_map().len()).sum());
+        put("index_reference", self.index_reference.len());
+        put("index_reference.files", self.index_reference.values().map(|m| m.len()).sum());
+        put("index_reference.items", self.index_reference.values().flat_map(|m| m.values()).map(|s| s.len()).sum());
+        put("global_references", self.global_references.len());
+        put("global_references.files", self.global_references.values().map(|m| m.len()).sum());
+        put("global_references.items", self.global_references.values().flat_map(|m| m.values()).map(|s| s.len()).sum());
+        put("string_references", self.string_references.len());
+        put("type_references", self.type_references.len());
+        put("type_references.types", self.type_references.values().map(|m| m.len()).sum());
+        put("type_references.items", self.type_references.values().flat_map(|m| m.values()).map(|s| s.len()).sum());
+        put("label_references", self.label_references.len());
+        put("label_references.items", self.label_references.values().map(|l| l.labels.len()).sum());
+
+        v
+    }
+}
